@@ -62,6 +62,9 @@ type Frame struct {
 	Units []Unit `json:"u"`
 	// M-JPEG only
 	JW, JH, JType, JTables int `json:",omitempty"`
+	// JDRI: restart interval of a JPEG (0 = no DRI segment). Only the packetizer checks (C06) draw it: the library's
+	// depacketizer refuses the restart-marker payload types, so such images have no round trip to judge.
+	JDRI int `json:",omitempty"`
 }
 
 func (f Frame) unitBytes() [][]byte {
@@ -510,6 +513,9 @@ func (f Frame) jpegImage() []byte {
 	buf = dqt.Marshal(buf)
 	buf = jpeg.StartOfFrame1{Type: uint8(f.JType), Width: f.JW, Height: f.JH, QuantizationTableCount: uint8(f.JTables)}.Marshal(buf)
 	buf = jpeg.DefineHuffmanTable{Codes: make([]byte, 16), Symbols: []byte{}, TableNumber: 0, TableClass: 0}.Marshal(buf)
+	if f.JDRI > 0 {
+		buf = append(buf, 0xFF, 0xDD, 0x00, 0x04, byte(f.JDRI>>8), byte(f.JDRI))
+	}
 	buf = jpeg.StartOfScan{}.Marshal(buf)
 	buf = append(buf, f.concat()...)
 	return buf
